@@ -343,10 +343,10 @@ def rotation_letters(n, ne, uhf):
     return out
 
 
-def words(letters):
+def words(letters, max_len=2):
     out = [()]
-    out += [(l,) for l in letters]
-    out += [(l1, l2) for l1 in letters for l2 in letters]
+    for k in range(1, max_len + 1):
+        out += list(itertools.product(letters, repeat=k))
     return out
 
 
@@ -407,19 +407,19 @@ def h1_tangents(n, uhf):
     return out
 
 
-def opt_check(sysd, uhf, seed, res, only=None):
+def opt_check(sysd, uhf, seed, res, only=None, thorough=False):
     """All of part O for one system.  `only` = dict(n_opt_iter=.., word=.. | guess=.. | jvp=..) restricts to one case (replay)."""
     prob = build_problem(sysd)
     n, na, nb = prob["n"], prob["na"], prob["nb"]
     kind = "uhf" if uhf else "rhf"
-    base = dict(part="opt", kind=kind, system=sysd, seed=seed)
+    base = dict(part="opt", kind=kind, system=sysd, seed=seed, tier="thorough" if thorough else "quick")
     conv, e_ref, C, E = pyscf_reference(prob, uhf)
     ne = [na, nb]
     Pref = [C[s][:, :ne[s]] @ C[s][:, :ne[s]].T for s in (0, 1)]
     if abs(hf_energy(prob, Pref[0], Pref[1]) - e_ref) > 1e-9 * max(1, abs(e_ref)):
         raise RuntimeError("reference energy model disagrees with pyscf for %r" % (sysd,))
     comm = scf_commutator(prob, Pref, uhf)
-    if comm > 1e-7:  # pyscf's own flag is too strict at conv_tol 1e-13; the stationarity of its solution is what matters
+    if comm > 1e-8:  # pyscf's own flag is too strict at conv_tol 1e-13; the stationarity of its solution is what matters
         res.guard("systems_reference_scf_not_stationary(not judged)")
         res.note("reference SCF not converged for %r: |[F,P]| = %.1e (pyscf converged=%s); system skipped" % (sysd, comm, conv))
         return res
@@ -434,7 +434,7 @@ def opt_check(sysd, uhf, seed, res, only=None):
     if not judged_fixed:
         res.guard("systems_ill_conditioned_fixed_point_not_judged")
     letters = rotation_letters(n, ne, uhf)
-    wl = words(letters)
+    wl = words(letters, 3 if (thorough and len(letters) <= 8) else 2)   # thorough: length-3 words on the small systems
     if len(wl) > MAX_WORDS:
         res.cap("%s %r: %d rotation words, only the first %d (all of length <= 1 and a prefix of length 2) run" % (kind, sysd, len(wl), MAX_WORDS))
         wl = wl[:MAX_WORDS]
@@ -557,7 +557,7 @@ def opt_check(sysd, uhf, seed, res, only=None):
 
 def job_opt(cfg):
     res = Result()
-    opt_check(cfg["system"], cfg["uhf"], cfg["seed"], res)
+    opt_check(cfg["system"], cfg["uhf"], cfg["seed"], res, thorough=cfg.get("tier") == "thorough")
     return res
 
 
@@ -580,7 +580,13 @@ def systems(tier, seed):
             if s != sc:
                 rhf += [M("H2/sto-3g", scale=s), M("H4chain/sto-3g", scale=s), M("LiH/sto-3g", scale=s)]
                 uhf += [M("H3chain/sto-3g", spin=1, scale=s), M("OH/sto-3g", spin=1, scale=s)]
-    return [dict(part="opt", system=s, uhf=False, seed=seed) for s in rhf] + [dict(part="opt", system=s, uhf=True, seed=seed) for s in uhf]
+    if thorough:  # the synthetic family for two more members of the frame / interaction catalogue
+        for extra in (1, 2):
+            S2 = lambda n, na, nb, **kw: dict(type="synth", n=n, na=na, nb=nb, seed=seed + 5 * extra, **kw)
+            rhf += [S2(3, 1, 1), S2(4, 2, 2), S2(4, 1, 1), S2(5, 2, 2)]
+            uhf += [S2(3, 2, 1), S2(4, 2, 1), S2(4, 2, 2, spin_dep=True), S2(4, 3, 1)]
+    return ([dict(part="opt", system=s, uhf=False, seed=seed, tier=tier) for s in rhf]
+            + [dict(part="opt", system=s, uhf=True, seed=seed, tier=tier) for s in uhf])
 
 
 def job(cfg):
@@ -588,10 +594,10 @@ def job(cfg):
 
 
 def run(ctx):
-    ctx.rule = ("_eigh: every multiset of size n <= 4 over {0,1,1+1e-7,1+1e-3,2} as spectrum x 5 Givens frames x every symmetric basis "
+    ctx.rule = ("_eigh: every multiset of size n <= 4 (5 thorough) over {0,1,1+1e-7,1+1e-3,2} as spectrum x 5 Givens frames x every symmetric basis "
                 "tangent; optimize: systems (synthetic gapped / degenerate one-body-limit Hamiltonians, molecules in the Loewdin basis; "
-                "closed and open shells; rhf and uhf) x n_opt_iter {5,30} x every word of length <= 2 over Givens(occ,virt,theta in "
-                "{0.05,0.3}) applied to the pyscf-converged orbitals (empty word = converged input) + 4 malformed guesses x jvp along every "
+                "closed and open shells; rhf and uhf) x n_opt_iter {5,30} x every word of length <= 2 (3 in the thorough tier for systems with <= 8 letters) over "
+                "Givens(occ,virt,theta in {0.05,0.3}) applied to the pyscf-converged orbitals (empty word = converged input) + 4 malformed guesses x jvp along every "
                 "symmetric one-body tangent; a state is one (system, n_opt_iter, initial orbitals | tangent); non-trivial & distinct = "
                 "distinct spectra / distinct energies of the initial determinants")
     ctx.assume("pyscf (DIIS, conv_tol 1e-13) on the same integrals is the independent SCF solver; 'well-conditioned' = linearised Roothaan "
@@ -602,7 +608,7 @@ def run(ctx):
                "well-conditioned systems with a non-degenerate Fock spectrum")
     jobs = systems(ctx.tier, ctx.seed)
     jobs.sort(key=lambda j: -(j["system"].get("n", 7) ** 2) * (2 if j["uhf"] else 1))
-    jobs += [dict(part="eigh", n=n, seed=ctx.seed) for n in (4, 3, 2, 1)]
+    jobs += [dict(part="eigh", n=n, seed=ctx.seed) for n in ((5, 4, 3, 2, 1) if ctx.thorough else (4, 3, 2, 1))]
     ctx.pmap(job, jobs)
     ctx.require_guard("eigh_jvp_cases_nondegenerate", "eigh_jvp_exactly_degenerate_finite", "eigh_jvp_near_degenerate_finite",
                       "eigh_jvp_compared_small_gap(1e-3)", "systems_rhf", "systems_uhf", "systems_energy_judged", "fixed_point_cases",
@@ -622,6 +628,6 @@ def replay(case):
             only[k] = case[k]
     if "jvp" in only:
         only["jvp"] = [only["jvp"][0], only["jvp"][1], list(only["jvp"][2])]
-    opt_check(case["system"], case["kind"] == "uhf", case["seed"], res, only=only)
+    opt_check(case["system"], case["kind"] == "uhf", case["seed"], res, only=only, thorough=case.get("tier") == "thorough")
     v = res.violations
     return (len(v) > 0, v[0]["detail"] if v else {})
